@@ -164,6 +164,12 @@ func (g *vfGen) genC13() {
 		r := g.table(delim, cols, rows, nl, true)
 		g.emit(vfOp("lines", kind+"-bad", []byte(r), 0))
 		g.emit(vfOp("lines", kind+"-bad", []byte(r), len(r)))
+		if i%3 == 0 {
+			// a ragged table at every limit (a limit right behind the line break of the ragged row included)
+			for l := 1; l <= len(r)+1; l++ {
+				g.emit(vfOp("lines", "any", []byte(r), l))
+			}
+		}
 		one := g.table(delim, 1, rows, nl, false)
 		g.emit(vfOp("lines", kind+"-one", []byte(one), 0))
 		// NDJSON streams
@@ -193,7 +199,8 @@ func (g *vfGen) genC13() {
 		j := g.intn(len(d))
 		switch g.intn(7) {
 		case 6:
-			d[j] = []string{"hello world", "# comment", "}", ",", "]", "x", ":", "// c", "=1", "'a'", "NaN", "undefined"}[g.intn(12)]
+			d[j] = []string{"hello world", "# comment", "}", ",", "]", "x", ":", "// c", "=1", "'a'", "NaN", "undefined",
+				"{\"id\":1}\u00a0", "\u00a0", "\x0c", "{\"id\":1}\x0c", "\u2028", "\u0085[1]", "[1]\u3000", "\x0b{}"}[g.intn(20)]
 		case 4:
 			d[j] = []string{"{", "[", "\"", " {", "[ "}[g.intn(5)]
 		case 5:
